@@ -73,9 +73,30 @@ def gen_turn(rng, cfg, k, w_in=(0.62, 0.14, 0.14, 0.10), w_out=(0.62, 0.14, 0.14
             t["user"] = P.PLAIN_TEXT
         elif form == "regex":
             t["user"] = t["user"] + " " + rng.choice([P.REGEX_WORD, P.REGEX_WORD.upper(), "the " + P.REGEX_WORD + " please"])
+        elif form == "multi":
+            set_route(t, rng.choice("ab"), cfg)
     t["exc_kind"] = rng.choice(P.EXC_KINDS)
     t["vin"] = [[i, gen_verdict(rng, ver, "in", k, w_in)] for i in sorted(set(cfg["in"]))]
     t["vout"] = [[i, gen_verdict(rng, ver, "out", k, w_out)] for i in sorted(set(cfg["out"]))]
+    return t
+
+
+def set_route(t, route, cfg):
+    """Address the turn to one of the two answering flows: 2.x without dialog rails and `usaid: multi` - flow a waits for the
+    literal text, flow b for the regular expression; 2.x with dialog rails - a = the LLM continuation, b = the action flow;
+    Colang 1.0 with dialog rails - a = no flow (free), b = the dialog flow."""
+    t["route"] = route
+    if cfg["ver"] == "2.x" and not cfg["dialog"]:
+        if cfg.get("usaid") == "multi":
+            t["user"] = P.PLAIN_TEXT if route == "a" else (t["user"].replace(P.PLAIN_TEXT, "hello").split(" " + P.REGEX_WORD)[0] + " " + P.REGEX_WORD)
+    elif cfg["ver"] == "2.x":
+        t["intent"] = "free" if route == "a" else "act"
+        if route == "b":
+            t["user"] = ACT_TEXT
+        elif t["user"] == ACT_TEXT:
+            t["user"] = "hello again"
+    elif cfg["dialog"]:
+        t["intent"] = "free" if route == "a" else "flow"
     return t
 
 
@@ -358,6 +379,157 @@ def repeat_cases(rng, tier, side, patterns=None):
     return cases
 
 
+# ------------------------------------------------------------------ failures that PROPAGATE out of `generate`
+#
+# An ordinary exception of an action is contained by the dispatcher (C03).  Two kinds of failure leave `generate` by design, in
+# the MIDDLE of a turn: `LLMCallException` (the LLM call inside an LLM-backed rail such as `self check output`, inside a custom
+# rail action, or a dialog / generation call finds the provider down - `execute_action` re-raises it) and the cancellation of the
+# request's task.  The caller gets nothing back; it still has what it was GIVEN by the last completed call (the state JSON, a State
+# object it decoded itself, its own message list + the events cache) and the conversation goes on from there on the SAME LLMRails
+# instance: a retry of the same request, or another user message answered by ANOTHER flow than the one the failure interrupted.
+# Whatever the failed call left behind (objects it mutated in place, context variables, caches) must not weaken the next turns.
+#
+# one conversation = a list of turn events:
+#   ok        every rail accepts                       r / ri    the last output / input rail rejects
+#   xo0 xo1   the first / last output rail's LLM call fails (LLMCallException)      xi   the same for the last input rail
+#   L0 L1     the n-th dialog / generation LLM call of the turn fails               C<n> the task is cancelled at the n-th step
+# a trailing "=" keeps the route of the previous turn (a retry), otherwise the route alternates (another flow answers)
+PROPAGATING_PATTERNS = {
+    "out": [["ok", "xo1", "r", "ok"], ["ok", "xo0", "r="], ["xo1", "r", "r="], ["ok", "r", "xo1", "r"], ["ok", "xo1", "xo1", "r", "ok"],
+            ["ok", "xo1", "ok=", "r"], ["ok", "L0", "r"], ["ok", "C3", "r", "ok"], ["ok", "C9", "r"], ["xo0", "xo1=", "r"]],
+    "in": [["ok", "xi", "ri", "ok"], ["xi", "ri", "ok"], ["ok", "ri", "xi", "ri"], ["ok", "xo1", "ri", "ok"], ["ok", "L0", "ri"], ["ok", "C0", "ri"],
+           ["ok", "C2", "ri", "ok"], ["ok", "xi", "xi", "ri="], ["ok", "C3", "ri", "ok"], ["ok", "C4", "ok", "ri"], ["ok", "L1", "ri"], ["ok", "C5", "ri"]],
+    "both": [["ok", "xo1", "r", "ri"], ["ok", "xi", "r", "ri"], ["ok", "L0", "r", "ri"], ["ok", "L1", "ri", "r"], ["xo0", "ri", "r"],
+             ["ok", "C1", "r", "ri"], ["ok", "C2", "ri", "r"], ["ok", "C4", "r", "ri"], ["ok", "C6", "r"], ["ok", "xo1", "L0", "C3", "r", "ri"]],
+}
+
+PROPAGATING_CFGS_V2 = [  # (dialog, in, out, sc, carry, wire)
+    (False, [0], [0, 1], False, "state", False), (True, [0], [0, 1], False, "state", True), (False, [], [], True, "state", True),
+    (True, [], [], True, "state", False), (False, [1], [0], True, "stateobj", False),
+]
+PROPAGATING_CFGS_V1 = [  # (dialog, in, out, sc, carry)
+    (False, [0], [0, 1], False, "messages"), (True, [0], [0, 1], False, "state"), (False, [], [], True, "state"), (True, [0], [0], True, "messages"),
+]
+
+
+def _apply_event(rng, cfg, t, ev):
+    ins, outs = eff_in(cfg), eff_out(cfg)
+    if ev == "r" and outs:
+        t["vout"] = _set(t["vout"], outs[-1], "r")
+    elif ev == "ri" and ins:
+        t["vin"] = _set(t["vin"], ins[-1], "r")
+    elif ev in ("xo0", "xo1") and outs:
+        t["vout"] = _set(t["vout"], outs[0 if ev == "xo0" else -1], "x")
+    elif ev == "xi" and ins:
+        t["vin"] = _set(t["vin"], ins[-1], "x")
+    elif ev[0] == "L":
+        t["llm_x"] = int(ev[1:])
+    elif ev[0] == "C":
+        t["cancel"] = int(ev[1:])
+
+
+def _set(tbl, rid, v):
+    tbl = [[i, (v if i == rid else vv)] for i, vv in tbl or []]
+    if not any(i == rid for i, _ in tbl):
+        tbl.append([rid, v])
+    return tbl
+
+
+def propagating_cases(rng, tier, side, patterns=None):
+    """Conversations in which a call ends by a propagated exception (LLMCallException from a rail's / a generation LLM call,
+    task cancellation) at some await point of some turn, and the caller then retries / goes on from the last state it was given."""
+    cases = []
+    pats = patterns if patterns is not None else PROPAGATING_PATTERNS[side]
+    for ver, cfgs in (("2.x", PROPAGATING_CFGS_V2), ("1.0", PROPAGATING_CFGS_V1)):
+        for ci, c in enumerate(cfgs):
+            for exc in ((False, True) if tier == "thorough" else (False,)):
+                for pi, pat in enumerate(pats):
+                    if tier == "quick" and ver == "1.0" and (pi + ci) % 2:
+                        continue  # quick: every pattern on half of the 1.0 configurations
+                    cfg = {"ver": ver, "dialog": c[0], "exc": exc, "in": list(c[1]), "out": list(c[2]), "carry": c[4]}
+                    if c[3]:
+                        cfg["sc"] = True
+                    if ver == "2.x":
+                        cfg["wire"] = c[5]
+                        if not cfg["dialog"]:
+                            cfg["usaid"] = "multi"
+                    else:
+                        cfg["gen"] = "std"
+                    if not fits(ver, cfg["dialog"], len(cfg["in"]), len(cfg["out"]), sc=bool(cfg.get("sc"))):
+                        continue
+                    turns = []
+                    route = rng.choice("ab")
+                    for k, ev in enumerate(pat):
+                        t = clean_turn(rng, cfg, k + 1)
+                        if cfg.get("sc"):
+                            t["vin"] = _set(t["vin"], SC_ID, "a")
+                            t["vout"] = _set(t["vout"], SC_ID, "a")
+                        if not ev.endswith("="):
+                            route = "b" if route == "a" else "a"  # another flow answers than in the previous turn
+                        set_route(t, route, cfg)
+                        _apply_event(rng, cfg, t, ev.rstrip("="))
+                        turns.append(t)
+                    cfg["turns"] = turns
+                    cases.append(cfg)
+    # 2.x, the caller keeps ONE live State object and hands the object to every call (`generate_async(state=<State>)`): the object IS
+    # what the failed call left behind.  One failure per conversation, the following message goes to the other answering flow (the
+    # interrupted flow instance never answers again - an empty reply, which is not this check's question).
+    if patterns is None:
+        for dialog, ins, outs, sc in ((False, [0], [0, 1], False), (False, [], [], True)):
+            for pat in LIVE_PATTERNS[side]:
+                cfg = {"ver": "2.x", "dialog": dialog, "exc": False, "in": list(ins), "out": list(outs), "carry": "liveobj", "usaid": "multi"}
+                if sc:
+                    cfg["sc"] = True
+                turns = []
+                route = rng.choice("ab")
+                for k, ev in enumerate(pat):
+                    t = clean_turn(rng, cfg, k + 1)
+                    if sc:
+                        t["vin"] = _set(t["vin"], SC_ID, "a")
+                        t["vout"] = _set(t["vout"], SC_ID, "a")
+                    if k == len(pat) - 1:
+                        route = "b" if route == "a" else "a"
+                    set_route(t, route, cfg)
+                    _apply_event(rng, cfg, t, ev)
+                    turns.append(t)
+                cfg["turns"] = turns
+                cases.append(cfg)
+    return cases
+
+
+LIVE_PATTERNS = {
+    "out": [["ok", "xo1", "r"], ["ok", "ok", "xo0", "r"], ["ok", "C9", "ok", "r"], ["ok", "L0", "r"], ["ok", "xi", "r"]],
+    "in": [["ok", "xi", "ri"], ["ok", "xo1", "ri"], ["ok", "C0", "ri"]],
+    "both": [["ok", "xo1", "r"], ["ok", "xi", "r"], ["ok", "L0", "ri"], ["ok", "C1", "r"], ["ok", "C3", "r"]],
+}
+
+
+def inject_propagating(rng, case):
+    """Make one turn (not the last one) of a generated conversation end by a propagated failure; the following turns alternate the
+    answering flow where the configuration has two."""
+    ts = case["turns"]
+    if len(ts) < 2 or case.get("gen", "std") != "std" or case.get("carry") == "fresh":
+        return case
+    k = rng.randrange(len(ts) - 1)
+    t = ts[k]
+    kind = rng.choice(["xo", "xo", "xi", "L", "C"])
+    # only rails whose check is an ACTION can have a failing LLM call (a pure-Colang rail computes its verdict in the flow)
+    ins, outs = [r for r in eff_in(case) if not P.is_pure(r)], [r for r in eff_out(case) if not P.is_pure(r)]
+    if kind == "xo" and outs:
+        t["vout"] = _set(t.get("vout"), rng.choice(outs), "x")
+    elif kind == "xi" and ins:
+        t["vin"] = _set(t.get("vin"), rng.choice(ins), "x")
+    elif kind == "L":
+        t["llm_x"] = rng.choice([0, 0, 1])
+    else:
+        t["cancel"] = rng.randrange(0, 6)
+    if case["ver"] == "2.x":
+        case["wire"] = rng.random() < 0.5
+        if rng.random() < 0.25:
+            case["carry"] = "stateobj"
+    return case
+
+
 def collapse_texts(rng, case, p_bot=0.5, p_user=0.3, p_rw=0.3):
     """Make the texts of a generated conversation repeat: a later turn's LLM text / user text / rewrite text is replaced by one
     that already occurred (as LLM text, user text or rewrite) in an earlier turn."""
@@ -429,22 +601,37 @@ def ctx_request(case):
     }
 
 
+def has_propagating(case):
+    return any(P.propagating(t) for t in case["turns"]) or case.get("carry") == "liveobj"
+
+
 def model_requests(case, obs, method="C01.conv"):
+    if has_propagating(case):
+        # conversations with calls that end by a propagated exception: the call-level model (`Models/PipelineCall.lean`, driver op
+        # C02.calls) - the failed call hands nothing back, the next call starts from the state the caller was given before
+        return _conv_requests(case, "C02.calls")
     return _conv_requests(case, method) + ([ctx_request(case)] if ctx_applicable(case) else [])
 
 
 def _conv_requests(case, method):
     return [{
         "m": method,
+        "live": case.get("carry") == "liveobj" and case["ver"] == "2.x",
         "ver": case["ver"],
         "cfg": {"in": case["in"], "out": case["out"], "dialog": bool(case["dialog"]), "exc": bool(case["exc"]), "sc": bool(case.get("sc")),
                 "single_call": case["ver"] == "1.0" and case.get("gen") == "single",
                 "nostop_in": case.get("nostop_in", []), "nostop_out": case.get("nostop_out", [])},
-        "turns": [{"user": t["user"], "bot": t["bot"], "intent": t.get("intent", "free"), "vin": t.get("vin", []), "vout": t.get("vout", []),
+        "turns": [{"user": t["user"], "bot": t["bot"], "intent": t.get("intent", "free"), "vin": _vx(t.get("vin", [])), "vout": _vx(t.get("vout", [])),
                    "act_fault": bool(t.get("act_fault")), "retr_fault": bool(t.get("retr_fault")),
+                   "llm_x": t.get("llm_x"), "cancel": t.get("cancel"),
                    # the rails enabled for THIS call (1.0 generation options)
                    "no_in": not eff_in(case, t) and bool(eff_in(case)), "no_out": not eff_out(case, t) and bool(eff_out(case))} for t in case["turns"]],
     }]
+
+
+def _vx(tbl):
+    """verdict "x" (the rail's LLM call fails -> LLMCallException, forwarded) is the model's `Verdict.escape`"""
+    return [[i, ("e" if v == "x" else v)] for i, v in tbl]
 
 
 EXC_NAME = {"in": "InputRailException", "out": "OutputRailException"}
@@ -456,9 +643,21 @@ def compare(case, obs, mouts):
         return f"model answered {m}"
     for k, (o, mt) in enumerate(zip(obs["turns"], m["turns"])):
         where = f"turn {k + 1}: "
+        if o.get("reused_obj"):
+            return where + "the call worked on a State object that an earlier call of the conversation had worked on (model: `json_to_state` gives every call a new object)"
+        # `$bot_talking_state` only exists (and is only read by the model) with the dialog rails: compared there only
+        keys = ("orip", "talking") if case["dialog"] else ("orip",)
+        if o["raised"] and o.get("left") is not None and mt.get("left") is not None and any(o["left"].get(q) != mt["left"].get(q) for q in keys):
+            return where + f"the State object the failed call leaves behind: impl {o['left']} model {mt['left']}"
         if o["raised"]:
             if not mt["reply"]["raised"]:
                 return where + f"implementation raised {o['raised']}, model returns {mt['reply']}"
+            if P.propagating(case["turns"][k]):
+                # a scripted propagated failure: the steps up to the failing await point are the model's
+                isteps = [s[:3] if s[0] == "rail" else s[:2] for s in o["steps"]]
+                msteps = [s[:3] if s[0] == "rail" else s[:2] for s in mt["steps"] if s[0] in ("rail", "llm", "act")]
+                if isteps != msteps:
+                    return where + f"steps before the propagated failure differ: impl {isteps} model {msteps}"
             continue
         if mt["reply"]["raised"]:
             return where + "model says an exception escapes, implementation returned " + json.dumps(o["reply"])
@@ -491,7 +690,7 @@ def compare(case, obs, mouts):
                 return where + f"model replies {want[:120]!r}, implementation {json.dumps(rep)[:200]}"
             if (EXC_NAME[mr["exc"]] if mr["exc"] else None) != rep["exc"]:
                 return where + f"model exception event {mr['exc']}, implementation {rep['exc']}"
-    if len(obs["turns"]) != len(m["turns"]) and not any(o["raised"] for o in obs["turns"]):
+    if len(obs["turns"]) != len(m["turns"]) and not any(o["raised"] and not P.propagating(tc) for tc, o in zip(case["turns"], obs["turns"])):
         return f"implementation ran {len(obs['turns'])} turns, model {len(m['turns'])}"
     if len(mouts) > 1:
         return compare_ctx(case, obs, mouts[1])
@@ -562,7 +761,10 @@ def tags(case, obs):
             for s in rail_calls(to, kind):
                 v = verdict_of(tc, kind, s[2])
                 t.append(f"{kind}-verdict:{'w' if is_rewrite(v) else v}")
-        if to["raised"]:
+        if to["raised"] and P.propagating(tc):
+            t.append("raised:" + to["raised"].split(":")[0] + "@" + ("-".join(str(x) for x in to["steps"][-1][:2]) if to["steps"] else "start"))
+            t.append("propagated-in-turn:%d/%d" % (case["turns"].index(tc) + 1, len(case["turns"])))
+        elif to["raised"]:
             t.append("raised")
         elif to["reply"]["exc"]:
             t.append("reply:" + to["reply"]["exc"])
@@ -615,12 +817,19 @@ def shrink(case):
         for key in ("act_fault", "retr_fault"):
             if t.get(key):
                 yield dict(case, turns=ts[:i] + [dict(t, **{key: False})] + ts[i + 1:])
+        for key in ("llm_x", "cancel"):
+            if t.get(key) is not None:
+                yield dict(case, turns=ts[:i] + [{k: v for k, v in t.items() if k != key}] + ts[i + 1:])
         if t.get("opts") is not None and t["opts"] != OPTS["all"]:
             yield dict(case, turns=ts[:i] + [dict(t, opts=OPTS["all"])] + ts[i + 1:])
     for key in ("in", "out"):
         l = case[key]
         for i in range(len(l)):
             yield dict(case, **{key: l[:i] + l[i + 1:]})
+    if case.get("wire"):
+        yield dict(case, wire=False)
+    if case.get("carry") == "stateobj":
+        yield dict(case, carry="state")
     if case.get("front"):
         yield dict(case, front=False)
     if case.get("trail"):
@@ -660,6 +869,8 @@ def after_output_block_v2(case, obs, k):
 
 def fault_reached(tc, to):
     """a scripted fault was actually hit in this turn (the faulting action was invoked)"""
+    if to["raised"] and P.propagating(tc):
+        return True
     for s in to["steps"]:
         if s[0] == "rail" and verdict_of(tc, s[1], s[2]) == "f":
             return True
@@ -681,6 +892,18 @@ SIG_STALE = "v1-stale-context-after-hidden-turn"
 SIG_FLAG = "v2-output-rails-skipped-after-abort"
 SIG_SC = "self-check-output-continues-after-exception"
 SIG_TRAIL = "v1-trailing-message-bypasses-input-rails"
+SIG_LIVE = "v2-live-state-object-after-propagated-failure"
+
+
+def live_object_after_propagated_failure(case, obs, k):
+    """Colang 2.x, the caller hands ONE live State object to every call, and an earlier call ended by a propagated failure while the
+    output rails were in progress (the last step before the failure is an output rail's action)"""
+    if case["ver"] != "2.x" or case.get("carry") != "liveobj" or k is None:
+        return False
+    for tc, to in list(zip(case["turns"], obs["turns"]))[:k]:
+        if to["raised"] and P.propagating(tc) and to["steps"] and to["steps"][-1][0] == "rail" and to["steps"][-1][1] == "out":
+            return True
+    return False
 
 
 def trailing_message_request(case, obs, k):
@@ -702,6 +925,8 @@ def region_signature(case, obs, msg, oracle_codes_stale=(), oracle_codes_flag=()
     k = failing_turn(msg)
     m = _re.match(r"turn \d+: \[([a-z-]+)\]", msg or "")
     code = m.group(1) if m else None
+    if live_object_after_propagated_failure(case, obs, k) and code is not None and code in oracle_codes_flag + ("blocked-returned", "unchecked-text"):
+        return SIG_LIVE
     if trailing_message_request(case, obs, k) and oracle_codes_trail and (code is None or code in oracle_codes_trail):
         return SIG_TRAIL
     if selfcheck_output_blocked_in_exception_mode(case, obs, k) and code is not None and code in oracle_codes_sc:
